@@ -187,7 +187,19 @@ def run_case(case, ctx):
             with np.errstate(all='ignore'):
                 x_arg = [int(v) for v in x] if int_x else x.astype(np.float32) if f32_x else _as_given(x, case, ctx)
                 x_then = np.array(x_arg, copy=True) if isinstance(x_arg, np.ndarray) else None
-                J, info = nd.Jacobian(f, **kw)(x_arg)
+                jobj = nd.Jacobian(f, **kw)
+                if x_then is not None and x_arg.dtype == np.float64 and case['seed'] % 3 == 0:
+                    # history: the same object was called before with this very array, holding another point then (the caller
+                    # updates its state vector in place between the calls)
+                    ctx.count('same_array_updated_in_place_between_calls')
+                    x_arg[...] = x_then * 1.0625 + 0.03125
+                    try:
+                        jobj(x_arg)
+                    except Exception:
+                        pass
+                    x_arg[...] = x_then
+                    D._OBS.clear()
+                J, info = jobj(x_arg)
                 if x_then is not None:
                     ctx.count('callers_array_unchanged_asserted')
                     if x_arg.tobytes() != x_then.tobytes():
